@@ -72,6 +72,7 @@ def main():
         rc1, out1 = coqc(workdir, tmp)
         if rc1 == 0 and "Closed under the global context" in out1:
             print("PROVED %s" % c[1])
+            common += c[2]          # later theorems may use it
         elif rc1 == 0:
             print("OPEN-ASSUMPTIONS %s" % c[1])
         else:
